@@ -124,10 +124,15 @@ Explains(r) ==
 \* C13-attsymm: BinNormalisationFromAttenuationImage (alone or in a chain), properly set up, called on related
 \* viewgrams that are not grouped by its forward projector's own symmetries - in particular through
 \* apply/undo(ProjData&) with the default symmetries argument - raises an error.
+\* C13-compsetup: BinNormalisationPETFromComponents::set_up reports success for a geometry other than the one the
+\* factors were allocated for (its comparison is made after the stored geometry has been overwritten).
 Classify(r) ==
   IF /\ r.e \in {"RVF", "WholeF"} /\ HasAtt(obj) /\ r.err /\ r.sym # "proj"
      /\ su.st = "ok" /\ GeomEq(su.g, r.G)
-  THEN "C13-attsymm" ELSE "new"
+  THEN "C13-attsymm"
+  ELSE IF r.e = "SetUp" /\ obj.cls = "Comp" /\ GeomOk(r.G) /\ ~GeomEq(obj.g, r.G) /\ r.ok /\ ~r.err
+  THEN "C13-compsetup"
+  ELSE "new"
 
 Init == l = 1 /\ obj = NoObj /\ su = NotSetUp /\ att = NoAtt /\ bad = <<>> /\ stats = [chords |-> 0, elems |-> 0]
 Next ==
